@@ -281,6 +281,7 @@ def PRISM_cost(self, x):
     n = S.rank
     r = S.domain.r
     N = S.domain._length
+    require(x.shape[0] == n * n * N)          # the solver hands over rank*rank*length unknowns
     self.x = x
     G = pointwise((x.shape[0] // (n * n), n, n), lambda l, a, b: x[(l * n + a) * n + b] / r[l])
     self.GammaIn.data = G
